@@ -75,7 +75,16 @@ def Recorded.env (r : Recorded) : Env :=
     nfc := fun _ s => (r.nfcs.lookup s).getD missing,
     nfkd := fun _ s => (r.nfkds.lookup s).getD missing }
 
-def Recorded.world (r : Recorded) : World := { rands := r.rands, times := r.times, allocs := r.allocs }
+/-- a block id the harness never hands out -/
+def phantomBlock : Nat := 999999999
+
+/-- The allocation outcomes are those of the C run.  When the C run made NO allocation request in this call (the code
+may validate before it allocates), the model's request - if it makes one - succeeds with a phantom block: a call that
+fails gives the block back and agrees in its result; a call that succeeds names a block the C run does not know and
+is reported. -/
+def Recorded.world (r : Recorded) : World :=
+  { rands := r.rands, times := r.times,
+    allocs := if r.allocs.isEmpty then [some (phantomBlock, junk)] else r.allocs }
 
 def showEvent : Event → String
   | .alloc f size ret => s!"E alloc f={f} size={size} ret=" ++ (match ret with | some b => s!"b{b}" | none => "null")
